@@ -725,7 +725,6 @@ func bigAudioFile() []byte {
 	return w.Bytes()
 }
 
-
 // ---------------------------------------------------------------------------
 // capacity modes: tight / roomy twins of every operand
 
